@@ -129,6 +129,15 @@ func (e *esdtNFTCreate) ProcessBuiltinFunction(
 	}
 
 	nextNonce := nonce + 1
+	// the nonce was never issued, so nothing may be stored under tokenID||nextNonce: whatever
+	// sits there is another token's entry whose key aliases the new one and must not be overwritten
+	_, isNewKey, err := getESDTNFTTokenOnDestination(acntSnd, esdtTokenKey, nextNonce, e.marshalizer)
+	if err != nil {
+		return nil, err
+	}
+	if !isNewKey {
+		return nil, fmt.Errorf("%w, the key of the new nonce is already in use", ErrInvalidArguments)
+	}
 	esdtData := &esdt.ESDigitalToken{
 		Type:  uint32(vmcommon.NonFungible),
 		Value: quantity,
